@@ -383,3 +383,33 @@ macro_rules! impl_into_value {
     )*};
 }
 impl_into_value!(Flat, Nested, WithOpt, WithMap, WithEnum, Deep, Empty, Nums);
+
+
+/// The same record schema with its fields listed in another (seeded) order at every level, so
+/// that the serde serializer meets fields out of schema order. `perm == 0`: unchanged.
+pub fn permuted_schema(schema: &apache_avro::Schema, perm: u64) -> apache_avro::Schema {
+    if perm == 0 {
+        return schema.clone();
+    }
+    fn walk(j: &mut serde_json::Value, rng: &mut Rng) {
+        match j {
+            serde_json::Value::Object(m) => {
+                if m.get("type").and_then(|t| t.as_str()) == Some("record") {
+                    if let Some(serde_json::Value::Array(fs)) = m.get_mut("fields") {
+                        rng.shuffle(fs);
+                    }
+                }
+                for (_, v) in m.iter_mut() {
+                    walk(v, rng);
+                }
+            }
+            serde_json::Value::Array(a) => a.iter_mut().for_each(|v| walk(v, rng)),
+            _ => {}
+        }
+    }
+    let mut j = serde_json::to_value(schema).expect("schema to json");
+    let mut rng = Rng::new(perm);
+    walk(&mut j, &mut rng);
+    // a definition must still precede its references: fall back to the original order if not
+    apache_avro::Schema::parse(&j).unwrap_or_else(|_| schema.clone())
+}
